@@ -551,6 +551,13 @@ class SampleList(SampleListBase):
         fnames = [_sample_file_name(file_name_base, isample) for isample in self.local_indices]
         _ensure_no_existing_files(fnames, overwrite, self.comm)
 
+        # A `SampleList` has no mean file. Remove one left over from a
+        # `ResidualSampleList` saved under the same name: loaders decide by its
+        # presence which of the two classes they are looking at
+        with ensure_all_tasks_succeed(self.comm):
+            if overwrite and utilities.get_MPI_params_from_comm(self.comm)[2]:
+                pathlib.Path(f"{file_name_base}.mean.pickle").unlink(missing_ok=True)
+
         # Save samples
         with ensure_all_tasks_succeed(self.comm):
             for ii, isample in enumerate(self.local_indices):
